@@ -35,6 +35,10 @@ CLAIMED = {
          "Not under contract: copies made for strings/Numbers/RawMessages without zero-copy flags (decodeString/decodeBytes and the unsafe conversions), the Decoder's read buffer reuse, pooled encoder buffers, stability of results across later calls and goroutines (whole-history statements)."),
  "C11": ("Partial: Decoder.readValue (the framing loop behind Decode) against a byte stream in ghost state whose reader may deliver any number of bytes per call and any error when it delivers fewer: under the representation invariant decInv (the unread window is the tail of the buffer; InputOffset equals the stream position of the first unread byte; the buffer does not overlap the Decoder; no internal fast-path flag is set between calls), which every return re-establishes, for every chunking and every reader error: no panic, every write stays in the Decoder, its current buffer or freshly allocated memory (loop frame checked write by write); InputOffset never decreases; a returned value is a window of the buffer ending where the unread window begins; a number is returned only when a following byte, skipped whitespace, EOF or a reader error shows that it is complete (the defect fixed in d4b3ac2 was found by this clause); once the reader has reported an error nothing more is read; the refill loop terminates (variant on unread stream length and the error state). skipSpacesN's count is exact (fix 88d3b08).",
          "Not proved: that the buffered bytes equal the stream bytes across compaction and growth (content invariant: discharged on half of the loop paths only, therefore dropped - window arithmetic is proved, byte contents are not), equality of the value stream with encoding/json's, Decode's use of Parse, Buffered. Assumed: io.ReadFull's contract over the ghost stream; streams shorter than 1 TiB; soundness of the fast-path flags for the window handed to parseValue (assumed at that call, see C05)."),
+ "C15": ("Partial, for the leaf encoders encodeNull, encodeBool, encodeInt/Int8/16/32/64, encodeUint/Uintptr/Uint8/16/32/64 (through appendInt/appendUint/formatInteger) and encodeBytes, for every length and every spare capacity of the destination: the result begins with the destination's bytes (prefix clause over the pre-state memory), it is the same array grown in place or a freshly allocated one, and every store executed lands at an offset >= len(b) of b's backing array or in fresh memory (one frame obligation per store, append and callee); the appended bytes are given independently of len(b)/cap(b): exact for null/true/false, one- and two-digit integers (against the lookup tables of the initialised package) and the quotes of encodeBytes, sign and length bounds for the other integers.",
+         "Not under contract: encodeString (a contract was written and abandoned: every obligation timed out), encodeToString, floats/Number/Duration/Time (strconv, time), containers, structs and their roll-back paths, Append/Marshal themselves (reflection-driven codec construction). Assumed: asm/base64 EncodedLen/Encode contracts."),
+ "C01": ("Partial: pieces of the byte-for-byte equality that are decidable per function: escapeIndex returns -1 exactly when every byte of the string may be copied verbatim under encoding/json's rule (printable ASCII incl. DEL, except quote and backslash, and except < > & when HTML escaping is on) - the word-at-a-time scan and the byte tail, both directions; encodeNull/encodeBool write exactly null/true/false; integer encoders write the exact decimal digits for values below 100 (table contents imported from the initialised package), a leading '-' exactly for negative values, and between 1 and 20 digits otherwise; nil []byte encodes as null and non-nil as a quoted text of the base64 length.",
+         "Not under contract: the digits of integers >= 100 (loop invariant relating the table entries to the value was not written), string escaping beyond the verbatim decision, floats, struct/map/slice/interface encoders, Marshaler paths, RawMessage (defects #15/#16 of DESIGN section 10 are not decided), the Encoder's indent/escape settings. Observation: escapeIndex returns the offset within the 8-byte word, not within the string, when the first byte to escape lies beyond the first word; its only caller uses the value as a lower bound, so no output changes."),
  "C17": ("Partial, per call: Tokenizer.Next under the representation invariant tokInv (scope stack well formed and separate from the tokenizer and from the input), which Reset establishes and every successful Next re-establishes: no panic for any input; once Err is set Next returns false and changes nothing; a successful Next returns a non-empty Value that is a window of the input ending exactly where the remaining input begins (strict progress); Delim is set exactly for the six delimiter bytes; Kind follows the first byte of the token; for scalars Depth/Index/IsKey equal the stack depth, the top sibling counter minus one and the pending-key flag; '{'/'[' push one level, '}'/']' pop one level of the matching type and clear the pending key, ',' increments the sibling counter and re-arms the key flag inside objects, ':' clears it; Next writes only the tokenizer, its scope stack or memory that did not exist before the call (frame obligations), which with tokInv excludes the input bytes (lemma). Stack methods, Kind/Remaining and the RawValue class predicates equal their definitions.",
          "Not under contract: the closed statement about whole token streams (concatenation equals the compacted document; agreement with encoding/json's token stream) - an induction over calls that is argued from the per-call contract, not proved; Int/Uint/Float/String value accessors beyond parseInt/parseUint (C02); stack.push's append (trusted contract) and what sync.Pool.Get hands out (assumed: well-formed private stacks of any length; acquireStack's truncation is verified); the type and counter of the freshly pushed entry as seen after Next returns. Trusted: the tokenizer's memory is only reached through the receiver inside Next (unpacked receiver)."),
  "C19": ("Partial: seen-field bitmap sizing and indexing (makeFieldset/has/set), MessageRewriter.Rewrite panic-freedom and termination for every rewriter length and every field number the wire allows, Parse's field windows, EncodeTag/DecodeTag inverse.",
@@ -46,9 +50,7 @@ NOT_APPLICABLE = {
 }
 
 NOT_YET = {
- "C01": "not built yet (json encoders): no contract is claimed until its obligations discharge",
  "C14": "not built yet (json flags)",
- "C15": "not built yet (json.Append prefix/capacity obliviousness)",
 }
 
 def hook_commits():
